@@ -107,6 +107,10 @@ func (b *PresentationSubmissionBuilder) Build(format string) (PresentationSubmis
 	var inputDescriptorMappingObjects []InputDescriptorMappingObject
 	var selectedDID *did.DID
 
+	if len(b.wallets) == 0 {
+		// nothing to select from, and no holder to sign with
+		return PresentationSubmission{}, SignInstruction{}, errors.Join(ErrNoCredentials, errors.New("no wallets to match presentation definition against"))
+	}
 	for i, walletVCs := range b.wallets {
 		vcs, mappingObjects, err := b.presentationDefinition.Match(walletVCs)
 		if err == nil {
